@@ -254,7 +254,24 @@ def r_func(name, s):
 
 # --------------------------------------------------------------------------------------
 # serialisation for the model driver (prefix token list, single line)
-def t_expr(e):
+def t_expr(e, infs=False):
+    """infs=True serialises method calls as plain calls of the looked-up attribute (unused by default)"""
+    r = _t_expr(e, infs)
+    return r
+
+
+def _t_expr(e, infs):
+    t = e[0]
+    if t == "fstr":
+        return ["F", str(len(e[1]))] + sum([_t_expr(x, infs) for x in e[1]], [])
+    if t == "call":
+        return [("Kp" if infs else "K"), str(len(e[2]))] + _t_expr(e[1], infs) + sum([t_arg(a, infs) for a in e[2]], [])
+    return _t_expr1(e, infs)
+
+
+def _t_expr1(e, infs):
+    t_expr = lambda x: _t_expr(x, infs)
+    t_arg1 = lambda a: t_arg(a, infs)
     t = e[0]
     if t == "leaf":
         return ["L", e[1], str(e[2])]
@@ -276,9 +293,9 @@ def t_expr(e):
     if t == "cond":
         return ["I"] + t_expr(e[1]) + t_expr(e[2]) + t_expr(e[3])
     if t == "call":
-        return ["K", str(len(e[2]))] + t_expr(e[1]) + sum([t_arg(a) for a in e[2]], [])
+        raise ValueError("call handled above")
     if t == "disp":
-        return ["D", e[1], str(len(e[2]))] + sum([t_arg(a) for a in e[2]], [])
+        return ["D", e[1], str(len(e[2]))] + sum([t_arg1(a) for a in e[2]], [])
     if t == "dict":
         return ["M", str(len(e[1]))] + sum([t_expr(k) + t_expr(v) for k, v in e[1]], [])
     if t == "sub":
@@ -297,14 +314,14 @@ def t_expr(e):
     raise ValueError(e)
 
 
-def t_arg(a):
+def t_arg(a, infs=False):
     if a[0] == "pos":
-        return ["p"] + t_expr(a[1])
+        return ["p"] + _t_expr(a[1], infs)
     if a[0] == "kw":
-        return ["k", a[1]] + t_expr(a[2])
+        return ["k", a[1]] + _t_expr(a[2], infs)
     if a[0] == "star":
-        return ["s"] + t_expr(a[1])
-    return ["d"] + t_expr(a[1])
+        return ["s"] + _t_expr(a[1], infs)
+    return ["d"] + _t_expr(a[1], infs)
 
 
 def t_target(t):
@@ -369,7 +386,13 @@ class Gen(object):
         if kind in ("cmp1", "cmp2", "cmp3"):
             n = int(kind[3])
             ops = [r.choice(OBJ_CMPOPS if obj else sorted(CMPOPS)) for _ in range(n)]
-            return ("cmp", ops, [sub(True) for _ in range(n + 1)])
+            es = [sub(True) for _ in range(n + 1)]
+            for i in range(2, n):
+                # (the re-evaluated and/or operand of finding cascaded_in_boolop_operand_evaluated_twice is
+                #  modelled by a source rewrite that is exact only for the first cascade step)
+                if ops[i] in ("in", "notin") and es[i][0] in ("and", "or"):
+                    es[i] = self.leaf()
+            return ("cmp", ops, es)
         if kind == "and":
             return ("and", anyv(), anyv())
         if kind == "or":
@@ -674,6 +697,27 @@ def build_and_run(workdir, stmts, chunk=150, jobs=6, tag="c20m"):
         specs.append(dict(name=name, source=src, workdir=workdir, cflags=["-O0"]))
         names.append((name, ci, min(len(stmts), ci + chunk)))
     built = cybuild.build_many(specs, jobs=jobs)
+    # a chunk the compiler rejects (or crashes on) is split until the offending statements are alone
+    round_no = 0
+    while True:
+        bad = [k for k, (so, err) in enumerate(built) if err is not None and names[k][2] - names[k][1] > 1]
+        if not bad or round_no > 8:
+            break
+        round_no += 1
+        nspecs, nnames = [], []
+        for k in bad:
+            name, lo, hi = names[k]
+            mid = (lo + hi) // 2
+            for j, (l2, h2) in enumerate(((lo, mid), (mid, hi))):
+                nm2 = "%s_%d%s" % (name, round_no, "ab"[j])
+                src = module_source(stmts[l2:h2], l2)
+                with open(os.path.join(workdir, nm2 + "_py.py"), "w") as f:
+                    f.write(src)
+                nspecs.append(dict(name=nm2, source=src, workdir=workdir, cflags=["-O0"]))
+                nnames.append((nm2, l2, h2))
+        nbuilt = cybuild.build_many(nspecs, jobs=jobs)
+        names = [n for k, n in enumerate(names) if k not in bad] + nnames
+        built = [b2 for k, b2 in enumerate(built) if k not in bad] + nbuilt
     impl = [None] * len(stmts)
     orac = [None] * len(stmts)
     todo = []
@@ -806,6 +850,8 @@ def check_stmts(ctx, stmts, tag):
     m_asis = model.batch(model_lines(stmts, flags))
     m_ref = model.batch(["ref " + " ".join(t_stmt(s)) for s in stmts])
     nskip = 0
+    ncrash = []
+    nalt = []
     for s, a, o, ma, mr in zip(stmts, impl, orac, m_asis, m_ref):
         src = r_stmt(s)
         inp = {"stmt": src, "ast": s}
@@ -813,6 +859,12 @@ def check_stmts(ctx, stmts, tag):
             nskip += 1          # CPython itself rejects the generated statement: not a case
             continue
         ctx.case(stratum_of(s), inp, sig=src)
+        if a[0] is None and ("Compiler crash" in a[1] or "cython-error" in a[1]):
+            # the compiler rejects / crashes on this (valid) statement: nothing is executed, no order to compare
+            ncrash.append(src)
+            if os.environ.get("C20_DEBUG"):
+                print("BUILD", src, "\n".join(l for l in a[1].splitlines() if "arning" not in l)[-800:], file=sys.stderr)
+            continue
         if a[0] is None:
             if os.environ.get("C20_DEBUG"):
                 print("BUILD", src, "\n".join(l for l in a[1].splitlines() if "arning" not in l)[-1500:], file=sys.stderr)
@@ -827,6 +879,15 @@ def check_stmts(ctx, stmts, tag):
             ctx.corr_break("reference-vs-cpython", inp, o, pr[:2])
         # (2) tie: the model of the generated code reproduces the compiled module's log exactly
         tie = (pa[0] == a[0] and pa[1] == a[1])
+        if not tie and not flags[1]:
+            # PyMethodCallNode does not take the PyObject_VectorcallMethod shortcut for every method call
+            # (the conditions are not modelled): accept the model variant that looks the method up first
+            f2 = list(flags); f2[1] = 1
+            alt = parse_model(model.batch(model_lines([s], f2))[0])
+            if alt is not None and alt[0] == a[0] and alt[1] == a[1]:
+                tie = True
+                nalt.append(src)
+                ma = "(method looked up first) " + ma
         if not tie:
             if os.environ.get("C20_DEBUG"):
                 print("TIE", src, "\n  cy", " ".join(a[0]), "=>", a[1], "\n  md", " ".join(pa[0]), "=>", pa[1], file=sys.stderr)
@@ -840,6 +901,12 @@ def check_stmts(ctx, stmts, tag):
             lv = [e for e in a[0] if e.startswith("L") and e[1:].isdigit()]
             if len(lv) != len(set(lv)):
                 ctx.fail("leaf_evaluated_twice", inp, a, o)
+    if nalt:
+        ctx.note("%s: %d statements whose method calls were compiled without the vectorcall-method shortcut "
+                 "(model variant fx_mcall matched), e.g. %s" % (tag, len(nalt), nalt[0][:200]))
+    if ncrash:
+        ctx.note("%s: the compiler fails on %d generated statements (not evaluation-order cases), e.g. %s"
+                 % (tag, len(ncrash), ncrash[0][:200]))
     if nskip:
         ctx.note("%s: %d generated statements rejected by CPython itself (skipped)" % (tag, nskip))
 
